@@ -212,6 +212,29 @@ func c02r1(c *Ctx) {
 		}
 	}
 
+	// Push: the later operand's snapshot wins whenever it has one; the choice never depends on anything else
+	// (the receiver's snapshot may only survive where the other's is nil).
+	for _, fn := range []*ssa.Function{merge, copyMerge} {
+		pushF := fByName["Push"]
+		n := 0
+		eachInstr(fn, func(ins ssa.Instruction) {
+			s, ok := ins.(*ssa.Store)
+			if !ok {
+				return
+			}
+			fa, ok := s.Addr.(*ssa.FieldAddr)
+			if !ok || fieldVar(fa.X.Type(), fa.Field) != pushF {
+				return
+			}
+			n++
+			why := snapshotChoice(fn, s.Val, s.Block(), fn.Params[0], fn.Params[1], pushF, 0)
+			c.Check(fn.Name()+":Push is the later operand's snapshot", s.Pos(), why == "", why+": a merged request can carry an older snapshot than one of the requests it replaced, so the proxy misses the update that request announced while the keys and Forced flag look merged correctly")
+		})
+		if n == 0 {
+			c.Check(fn.Name()+":Push is the later operand's snapshot", fn.Pos(), false, "no store to Push found")
+		}
+	}
+
 	// set-valued fields: both operands flow into one union-like call, or one is ranged over into the other
 	for _, fn := range []*ssa.Function{merge, copyMerge} {
 		for _, f := range fields {
@@ -539,6 +562,58 @@ func c02r4(c *Ctx) {
 	c.Check("doneFunc:MarkDone on every path", doneFn.Pos(), bad == nil, "a path through doneFunc skips MarkDone")
 	bad = pathAvoiding(doneFn, nil, func(i ssa.Instruction) bool { u, ok := i.(*ssa.UnOp); return ok && u.Op == token.ARROW }, isReturn)
 	c.Check("doneFunc:release on every path", doneFn.Pos(), bad == nil, "a path through doneFunc skips the semaphore release")
+
+	// (e) a slot taken is always handed on: from the send on the semaphore, the loop cannot come back to the send without
+	// starting the hand-off goroutine (which owns doneFunc), calling doneFunc, or receiving from the semaphore.
+	{
+		var acquire ssa.Instruction
+		semP := paramNamed(dsp, "semaphore")
+		// the parameter is captured by doneFunc, so go/ssa keeps it in a cell
+		isSem := func(v ssa.Value) bool {
+			if v == ssa.Value(semP) {
+				return true
+			}
+			if u, ok := v.(*ssa.UnOp); ok && u.Op == token.MUL {
+				if a, ok := u.X.(*ssa.Alloc); ok {
+					for _, r := range *a.Referrers() {
+						if st, ok := r.(*ssa.Store); ok && st.Addr == ssa.Value(a) && st.Val == ssa.Value(semP) {
+							return true
+						}
+					}
+				}
+			}
+			return false
+		}
+		eachInstr(dsp, func(ins ssa.Instruction) {
+			if sd, ok := ins.(*ssa.Send); ok && isSem(sd.Chan) {
+				acquire = ins
+			}
+		})
+		if acquire == nil {
+			c.Check("doSendPushes:slot acquire found", dsp.Pos(), false, "no send on the semaphore parameter in doSendPushes")
+		} else {
+			handsOn := func(ins ssa.Instruction) bool {
+				switch x := ins.(type) {
+				case *ssa.Go:
+					if mk, ok := x.Call.Value.(*ssa.MakeClosure); ok && mk.Fn == ssa.Value(sender) {
+						return true
+					}
+				case *ssa.UnOp:
+					if x.Op == token.ARROW && isSem(x.X) {
+						return true
+					}
+				case *ssa.Call:
+					if mk, ok := x.Call.Value.(*ssa.MakeClosure); ok && mk.Fn == ssa.Value(doneFn) {
+						return true
+					}
+				}
+				return false
+			}
+			bad := pathAvoiding(dsp, acquire, handsOn, func(i ssa.Instruction) bool { return i == acquire })
+			c.Check("doSendPushes:a taken slot is handed on before the next one is taken", acquire.Pos(), bad == nil,
+				"the loop can take the next semaphore slot on a path that neither started the hand-off goroutine nor released the slot it took: each such iteration leaks one of the concurrent-push slots, and once they are gone no proxy is ever pushed again")
+		}
+	}
 
 	// (b) in sender: the select has exactly one send state; paths from the select to return that avoid a call of the
 	// doneFunc closure (a free variable) must pass through the send-succeeded arm only.
@@ -1292,4 +1367,85 @@ func setsTimerOrPushes(f *ssa.Function) bool {
 		}
 	})
 	return hasGo && setsTimer
+}
+
+
+// snapshotChoice: v (stored into the merged request's Push at block b) must be other's Push, or the receiver's Push
+// only where other's Push is nil. cur/other are the values standing for the two operands in fn (parameters holding the
+// *PushRequest, or - one level down in a helper - parameters holding the *PushContext themselves, when f == nil).
+func snapshotChoice(fn *ssa.Function, v ssa.Value, b *ssa.BasicBlock, cur, other ssa.Value, f *types.Var, depth int) string {
+	isOf := func(x ssa.Value, operand ssa.Value) bool {
+		if f == nil {
+			return x == operand
+		}
+		base, ok := fieldLoadOf(x, f)
+		return ok && base == operand
+	}
+	otherNilEdges := edgesWhere(fn, func(cv ssa.Value) bool {
+		x, eq, ok := nilCmp(cv)
+		return ok && eq && isOf(x, other)
+	}, true)
+	otherNilEdges = append(otherNilEdges, edgesWhere(fn, func(cv ssa.Value) bool {
+		x, eq, ok := nilCmp(cv)
+		return ok && !eq && isOf(x, other)
+	}, false)...)
+	var check func(x ssa.Value, at *ssa.BasicBlock) string
+	check = func(x ssa.Value, at *ssa.BasicBlock) string {
+		switch y := x.(type) {
+		case *ssa.Phi:
+			for i, e := range y.Edges {
+				if w := check(e, y.Block().Preds[i]); w != "" {
+					return w
+				}
+			}
+			return ""
+		case *ssa.Call:
+			callee := y.Call.StaticCallee()
+			if callee == nil || callee.Blocks == nil || !isIstioFunc(callee) || depth > 0 {
+				return "the snapshot is computed by a call the check cannot see through (" + y.String() + ")"
+			}
+			var pc, po ssa.Value
+			for k, a := range y.Call.Args {
+				if k >= len(callee.Params) {
+					break
+				}
+				if isOf(a, cur) {
+					pc = callee.Params[k]
+				}
+				if isOf(a, other) {
+					po = callee.Params[k]
+				}
+			}
+			if po == nil {
+				return "the helper " + callee.Name() + " does not receive the later operand's snapshot"
+			}
+			for _, blk := range callee.Blocks {
+				r, ok := blk.Instrs[len(blk.Instrs)-1].(*ssa.Return)
+				if !ok || len(r.Results) == 0 {
+					continue
+				}
+				if w := snapshotChoice(callee, retVal(r, 0), blk, pc, po, nil, depth+1); w != "" {
+					return "in " + callee.Name() + ": " + w
+				}
+			}
+			return ""
+		}
+		if isOf(x, other) {
+			return ""
+		}
+		if k, ok := x.(*ssa.Const); ok && k.IsNil() {
+			if underEdges(fn, at, otherNilEdges) {
+				return ""
+			}
+			return "nil is stored although the later operand may have a snapshot"
+		}
+		if cur != nil && isOf(x, cur) {
+			if underEdges(fn, at, otherNilEdges) {
+				return ""
+			}
+			return "the earlier operand's snapshot is kept on a path where the later operand has one (the choice depends on something other than its presence)"
+		}
+		return "the merged snapshot is neither operand's Push (" + x.String() + ")"
+	}
+	return check(v, b)
 }
